@@ -191,6 +191,8 @@ inductive Ev
   /-- the backend's response head was parsed: framing, `Connection: close`,
       and whether the message ends there (HEAD, 204, 304, `Content-Length: 0`) -/
   | backHead (bs : BodySize) (connClose : Bool) (noBody : Bool)
+  /-- more body bytes were parsed (the message is not complete yet) -/
+  | backData
   /-- the body is complete by its own framing -/
   | backBodyEnd
   /-- the backend's bytes do not parse -/
@@ -233,6 +235,7 @@ def step (cfg : Cfg) (s : Stream) (e : Ev) : Stream :=
       { s with phase := if noBody then .terminated else .body, bodySize := bs,
                kaBackend := s.kaBackend && !connClose, pending := true }
     else s
+  | .backData => if s.isLinked ∧ s.phase = .body then { s with pending := true } else s
   | .backBodyEnd =>
     if s.isLinked ∧ s.phase = .body then { s with phase := .terminated, pending := true } else s
   | .backParseError =>
